@@ -25,6 +25,7 @@ fn pipe_drop_output(cfg: &Cfg) {
     setup(cfg.pool());
     let mode = cfg.opt("mode", 0);
     let w = World::new();
+    w.prelude(cfg);
     let (obj, st) = dobj(&w);
     let (stream, ctl) = scripted_stream(&[]);
     let closure_drops = Arc::new(AtomicUsize::new(0));
@@ -131,6 +132,7 @@ fn pipe_in_items(cfg: &Cfg) {
     setup(pool);
     let (n, pat, conc, fin) = (cfg.get("n") as u32, cfg.opt("pat", 1), cfg.opt("conc", 1), cfg.opt("fin", 0));
     let w = World::new();
+    w.prelude(cfg);
     let (obj, st) = dobj(&w);
     let pre: Vec<u32> = if pat == 0 { (1..=n).collect() } else { vec![] };
     let (stream, ctl) = scripted_stream(&pre);
@@ -240,6 +242,7 @@ fn pipe_out(cfg: &Cfg) {
     setup(pool);
     let (n, d, pat) = (cfg.get("n") as u32, cfg.get("d") as usize, cfg.opt("pat", 1));
     let w = World::new();
+    w.prelude(cfg);
     let (obj, st) = dobj(&w);
     let pre: Vec<u32> = if pat == 0 { (1..=n).collect() } else { vec![] };
     let (stream, ctl) = scripted_stream(&pre);
@@ -299,6 +302,7 @@ fn pipe_steal(cfg: &Cfg) {
     let pool = cfg.pool();
     setup(pool);
     let w = World::new();
+    w.prelude(cfg);
     let mut pins = vec![];
     for i in 0..pool {
         let bq = w.raw();
